@@ -50,6 +50,8 @@ func checkC11(ctx *Ctx, r *Report) {
 	c11ComprehensionVar(ctx, r)
 	// the Go side of the omission agreement
 	c01GoWireNames(ctx, r)
+	c11ThirdRound(ctx, r)
+	c06NullableGuardExact(ctx, r)
 	c11HintMonotone(ctx, r)
 	c11GoPointerLast(ctx, r)
 	c01GoFieldTypeOverride(ctx, r)
@@ -1621,4 +1623,99 @@ func c01GoFieldTypeOverride(ctx *Ctx, r *Report) {
 	})
 	r.Count("type overrides in golang.formatField", n)
 	r.Floor("type overrides in golang.formatField", 1)
+}
+
+// c11ThirdRound: (a) Python from_json: a decoding expression may rely on declarations emitted beforehand (the
+// `decoding_map_…` of a discriminated union): every fromJSONCode built from the result of a recursive call forwards that
+// result's Setup together with its DecodingCall — a container that forwards only the call refers to a name that was never
+// declared (NameError); (b) Go's marshaller of a union of scalars picks the branch that is set with `!= nil`: an emptiness
+// test (`len(x) != 0`) skips an empty list / map branch and falls through to `null`.
+func c11ThirdRound(ctx *Ctx, r *Report) {
+	// (a)
+	p := ctx.Pkg("internal/jennies/python")
+	fn := ctx.LookupMethod("internal/jennies/python", "RawTypes", "fromJSONForTypeRec")
+	fd, _ := ctx.DeclOf(fn)
+	if p == nil || fd == nil {
+		r.Undecided("anchor lost: python.RawTypes.fromJSONForTypeRec")
+	} else {
+		info := p.TypesInfo
+		n := 0
+		ast.Inspect(fd.Body, func(m ast.Node) bool {
+			cl, ok := m.(*ast.CompositeLit)
+			if !ok {
+				return true
+			}
+			if nt := namedOf(info.TypeOf(cl)); nt == nil || nt.Obj().Name() != "fromJSONCode" {
+				return true
+			}
+			// results of recursive calls mentioned in DecodingCall
+			var callExpr, setupExpr ast.Expr
+			for _, el := range cl.Elts {
+				if kv, ok := el.(*ast.KeyValueExpr); ok {
+					if id, ok := kv.Key.(*ast.Ident); ok {
+						switch id.Name {
+						case "DecodingCall":
+							callExpr = kv.Value
+						case "Setup":
+							setupExpr = kv.Value
+						}
+					}
+				}
+			}
+			if callExpr == nil {
+				return true
+			}
+			var inner []types.Object
+			ast.Inspect(callExpr, func(q ast.Node) bool {
+				if s, ok := q.(*ast.SelectorExpr); ok && s.Sel.Name == "DecodingCall" {
+					if id, ok := ast.Unparen(s.X).(*ast.Ident); ok {
+						inner = append(inner, objOf(info, id))
+					}
+				}
+				return true
+			})
+			for _, o := range inner {
+				n++
+				forwarded := false
+				if setupExpr != nil {
+					ast.Inspect(setupExpr, func(q ast.Node) bool {
+						if s, ok := q.(*ast.SelectorExpr); ok && s.Sel.Name == "Setup" {
+							if id, ok := ast.Unparen(s.X).(*ast.Ident); ok && objOf(info, id) == o {
+								forwarded = true
+							}
+						}
+						return true
+					})
+				}
+				r.Check(forwarded, "skeleton/setup-forwarded", fmt.Sprintf("python fromJSONForTypeRec wraps %s.DecodingCall #%d", o.Name(), n), cl.Pos(), "the Setup of the wrapped result is forwarded with its DecodingCall",
+					fmt.Sprintf("fromJSONForTypeRec wraps %s.DecodingCall into a container expression without forwarding %s.Setup: the declarations the expression relies on (decoding_map_… of a discriminated union) are never emitted — from_json raises NameError for a map / list of unions", o.Name(), o.Name()))
+			}
+			return true
+		})
+		r.Count("container decodings wrapping a recursive result", n)
+		r.Floor("container decodings wrapping a recursive result", 2)
+	}
+	// (b)
+	ts, err := loadTemplates(ctx, "golang")
+	if err != nil {
+		r.Undecided("cannot parse golang templates: %v", err)
+		return
+	}
+	k := 0
+	for _, name := range ts.names() {
+		if !strings.Contains(ts.file[name], "disjunction_of_scalars.json_marshal") {
+			continue
+		}
+		txt := tmplText(ts.trees[name].Root)
+		for _, line := range strings.Split(txt, "\n") {
+			if !strings.Contains(line, "if ") || !strings.Contains(line, "resource.") {
+				continue
+			}
+			k++
+			r.Check(strings.Contains(line, "!= nil") && !strings.Contains(line, "len("), "skeleton/union-branch-presence", fmt.Sprintf("go union marshaller branch test #%d", k), token.NoPos, "the branch that is set is recognised by `!= nil`",
+				ts.file[name]+": a branch of the union is selected by another test than `!= nil` (`"+strings.TrimSpace(line)+"`): an empty list or map is a value of the union, an emptiness test skips it and the marshaller writes null")
+		}
+	}
+	r.Count("branch tests of the Go union marshaller", k)
+	r.Floor("branch tests of the Go union marshaller", 1)
 }
